@@ -21,9 +21,15 @@ type VCheck struct {
 	Last   string // description of the last op (part of the violation key)
 	Viol   []engine.Violation
 	Checks int
+	// SkipKnownC03: mismatches of the input class of the recorded C03 known finding are not
+	// recorded at all (used by checks of other properties that reuse the C03 observation)
+	SkipKnownC03 bool
 }
 
 func (c *VCheck) fail(clause string, what string, detail interface{}) {
+	if c.SkipKnownC03 && strings.HasPrefix(clause, "C03:KF-") {
+		return
+	}
 	key := clause + "|" + c.Last
 	for _, v := range c.Viol {
 		if v.Key == key {
